@@ -91,5 +91,37 @@ pub mod utils { pub mod serde_workaround {
 //@   rule R33
 //@   rule R36
 //@   rule R37
+
+// ---- C13 "deserialising those bytes yields an equal message": what `serialize` writes for q, presented on input (`wire_of`), has no
+// duplicates, has every required member, and each member's entry decodes to q's member (an absent optional member is absent and q's
+// member is its default, None).  With `visit_map`'s contract: a sound input of that shape is accepted and the message read equals q.
+// (proved by cases over which optional members are present)
+pub proof fn lemma_round_trip(q: HmacGetSecretInput)
+    ensures ({ let e = wire_of(ctap_entries(q)); let n = e.len() as int;
+        &&& dup_free(e, n)
+        &&& member::<ciborium::value::Value>(e, n, Ident::key_agreement) == Some(q.key_agreement)
+        &&& member::<Bytes>(e, n, Ident::salt_enc) == Some(q.salt_enc)
+        &&& member::<Bytes>(e, n, Ident::salt_auth) == Some(q.salt_auth)
+        &&& q.pin_uv_auth_protocol == (match member::<Option<u8>>(e, n, Ident::pin_uv_auth_protocol) { Some(x) => x, None => <Option<u8> as VxDefault>::vx_default() })
+    })
+{
+    broadcast use axiom_member_round_trip;
+    reveal_with_fuel(occ, 6);
+    reveal_with_fuel(dup_free, 6);
+    let e = wire_of(ctap_entries(q));
+    assert(e.len() == ctap_entries(q).len());
+    if q.pin_uv_auth_protocol is Some {
+        assert(ctap_entries(q).len() == 4);
+        assert(e[0] == (DeKey::U(1), ser_leaf(q.key_agreement)));
+        assert(e[1] == (DeKey::U(2), ser_leaf(q.salt_enc)));
+        assert(e[2] == (DeKey::U(3), ser_leaf(q.salt_auth)));
+        assert(e[3] == (DeKey::U(4), ser_leaf(q.pin_uv_auth_protocol)));
+    } else {
+        assert(ctap_entries(q).len() == 3);
+        assert(e[0] == (DeKey::U(1), ser_leaf(q.key_agreement)));
+        assert(e[1] == (DeKey::U(2), ser_leaf(q.salt_enc)));
+        assert(e[2] == (DeKey::U(3), ser_leaf(q.salt_auth)));
+    }
+}
 } // verus!
 fn main() {}
